@@ -848,7 +848,9 @@ class BackendZ3(Backend):
         if track:
             already_tracked = {str(impl.children()[0]) for impl in s.assertions()}
             for constraint in c:
-                name = str(hash(constraint))
+                # not hash(constraint): Z3's 32-bit AST hash collides (ULT(x, 226) and ULT(x, 1478) on a 32-bit x), and
+                # the second of two colliding constraints would never be asserted; the AST id is unique among live ASTs
+                name = str(constraint.get_id())
                 if name not in already_tracked:
                     s.assert_and_track(constraint, name)
                     already_tracked.add(name)
